@@ -1839,9 +1839,9 @@ class _CallMixin:
     def call_unit(self, file, qual, selfv, pos, kw, st, node):
         c = self.reg.lookup(file, qual)
         if c is None:
-            # a helper of a mechanically generated (cxx2py) module that has no contract of its own is verified as part of
-            # its callers: inlining its real body is sound (recursion is cut by the inline depth limit)
-            if file.startswith("@gen/"):
+            # a helper (of a generated cxx2py module or of a host module) that has no contract of its own is verified as part
+            # of its callers: inlining its real body is sound (recursion is cut by the inline depth limit)
+            if True:
                 try:
                     fn0 = self.find_def(file, qual)
                 except (KeyError, AttributeError):
@@ -2228,6 +2228,10 @@ class _StmtMixin:
         if isinstance(tgt, ast.Name):
             fr = st.sframes[-1] if st.sframes else None
             if fr is not None and tgt.id in fr.globals_declared:
+                if (fr.file, tgt.id) not in self.reg.globs and tgt.id not in st.glob:
+                    # module state the contracts do not model: the write is outside every frame (`modifies`) clause
+                    self.oblige(st, f"frame/unmodelled-global.{tgt.id}", z3.BoolVal(False),
+                                f"the function re-binds the module-level name {tgt.id!r}, which no contract lists in modifies")
                 st.glob[tgt.id] = v
             else:
                 st.locals[tgt.id] = v
